@@ -55,7 +55,7 @@ impl Check for C18 {
         "E1 single-node engine: 1-6 caller tasks first-use one keyspace name concurrently through the real write path, ConsistencyService / ReplicationService handlers and the repair path; seeded start offsets, storage latency and a cooperative delay between lookup and insert decide the interleaving"
     }
     fn rule(&self) -> &'static str {
-        "Cases: 1-6 callers with seeded start offsets 0-3 ms, each using a fresh keyspace name for the first time through one of four routes (local write, incoming replicated write, repair Diff+MultiSet, incoming GetState) and issuing one mutation with a unique timestamp; optional storage latency and seeded delays at the lookup/insert gap (hook jitter site group.get_or_create). Oracle at quiescence: the mailbox a later lookup returns serialises a set in which every acknowledged mutation is visible (its id is live/tombstoned at >= its timestamp), set == store (C02 oracle), and a mutation sent through any mailbox handed out earlier is visible through the current one. Non-trivial = >= 2 callers. Distinct = hash of (routes, offsets, jitter, final set)."
+        "Real-cluster arm (1 case in 127): 2-4 complete nodes built with the public API on slow stores, a node stopped and started again while its peers keep writing; at the final quiescent point every node's served keyspace state must list exactly what its store holds (an operation in the store but not in the served state is an accepted operation applied to another instance). Cases: 1-6 callers with seeded start offsets 0-3 ms, each using a fresh keyspace name for the first time through one of four routes (local write, incoming replicated write, repair Diff+MultiSet, incoming GetState) and issuing one mutation with a unique timestamp; optional storage latency and seeded delays at the lookup/insert gap (hook jitter site group.get_or_create). Oracle at quiescence: the mailbox a later lookup returns serialises a set in which every acknowledged mutation is visible (its id is live/tombstoned at >= its timestamp), set == store (C02 oracle), and a mutation sent through any mailbox handed out earlier is visible through the current one. Non-trivial = >= 2 callers. Distinct = hash of (routes, offsets, jitter, final set)."
     }
     fn assumptions(&self) -> Vec<String> {
         vec!["single OS thread: interleavings are those of await points, chosen by seeded virtual delays; real multi-threaded schedules are not explored".into()]
@@ -64,17 +64,45 @@ impl Check for C18 {
         vec![
             ("KeyspaceGroup::get_or_create_keyspace, keyspace actors, ConsistencyService + ReplicationService handlers, Clock", "real"),
             ("Storage", "SimStorage (harness)"),
+            ("real-cluster arm (1 case in 127): DatacakeNodeBuilder::connect, EventuallyConsistentStoreExtension / EventuallyConsistentStore::create (start-up order, state loading), gossip membership, full replication paths", "real, on the simulated network"),
             ("ReplicatedStoreHandle::put / poller get_keyspace_diff", "their keyspace-related statements re-issued by the harness (get_or_create_keyspace + the same actor messages)"),
         ]
     }
     fn budget(&self, tier: Tier) -> Budget {
         match tier {
-            Tier::Quick => Budget { wall_secs: 40, max_cases: 400_000, checkpoint_every: 64, workers: 16 },
+            Tier::Quick => Budget { wall_secs: 60, max_cases: 400_000, checkpoint_every: 64, workers: 16 },
             Tier::Thorough => Budget { wall_secs: 600, max_cases: 30_000_000, checkpoint_every: 64, workers: 16 },
         }
     }
     fn generate(&self, seed: u64, idx: u64, _tier: Tier) -> Value {
         let mut rng = rng_from(case_seed(seed, idx));
+        // real-cluster arm: complete nodes built with the public API (the unmodified store
+        // start-up included), restarted under traffic on slow stores
+        if arm_split(idx, 127).is_ok() {
+            let mut sc = crate::e2::c01::gen_real_scenario(&mut rng);
+            for n in sc.cfg.nodes.iter_mut() {
+                n.storage_latency_max_ms = n.storage_latency_max_ms.max(rng.gen_range(5..60));
+                n.storage_scan_latency_max_ms = n.storage_scan_latency_max_ms.max(rng.gen_range(20..200));
+                n.storage_faults.clear();
+            }
+            // one more stop/start of a node while its peers keep writing
+            let ids: Vec<u8> = sc.cfg.nodes.iter().map(|n| n.id).collect();
+            let last = sc.events.iter().map(|e| e.t()).max().unwrap_or(1_000);
+            let victim = ids[rng.gen_range(0..ids.len())];
+            let has_crash = sc.events.iter().any(|e| matches!(e, crate::e2::c01::Ev::Crash { .. }));
+            if !has_crash {
+                let t = rng.gen_range(last / 3..last.max(3));
+                sc.events.push(crate::e2::c01::Ev::Crash { t, node: victim });
+                sc.events.push(crate::e2::c01::Ev::Restart { t: t + rng.gen_range(200..3_000), node: victim });
+                let ks = "ks0".to_string();
+                for i in 0..rng.gen_range(3..10u64) {
+                    let w = ids[rng.gen_range(0..ids.len())];
+                    sc.events.push(crate::e2::c01::Ev::Op { t: t + 150 + i * rng.gen_range(20..400), node: w, spec: crate::e2::OpSpec { kind: "put".into(), ks: ks.clone(), ids: vec![rng.gen_range(0..6)], level: "None".into() } });
+                }
+                sc.events.sort_by_key(|e| e.t());
+            }
+            return serde_json::json!({ "cluster": sc });
+        }
         let base_ms = rng.gen_range(1_000_000_000u64..60_000_000_000) / 4 * 4;
         let n = rng.gen_range(1..=6);
         let ids = rng.gen_range(1..=6u64);
@@ -99,7 +127,32 @@ impl Check for C18 {
         })
         .unwrap()
     }
+    fn isolate(&self, scenario: &Value) -> bool {
+        scenario.get("cluster").is_some()
+    }
     fn execute(&self, scenario: &Value) -> Outcome {
+        if let Some(c) = scenario.get("cluster") {
+            let sc: crate::e2::c01::Scenario = match serde_json::from_value(c.clone()) {
+                Ok(s) => s,
+                Err(e) => return Outcome::invalid(format!("bad cluster scenario: {e}")),
+            };
+            return match crate::e2::c01::run_cluster(&sc, "C18") {
+                Ok(mut r) => {
+                    // an accepted operation (it is in the node's store) missing from the keyspace
+                    // state the node serves to its peers: the trace of a second instance
+                    for (n, diffs) in r.set_store_diffs.clone() {
+                        if !diffs.is_empty() {
+                            r.out.violate("C18/real-cluster/accepted-operation-missing-from-served-state", format!("node {n}: {}", diffs.join("; ")));
+                        }
+                    }
+                    r.out.violations.retain(|v| v.class.starts_with("C18/real-cluster/") || v.class.contains("/panic@"));
+                    r.out.probe("real_cluster_arm_case");
+                    r.out.nontrivial = r.issued.len() >= 2;
+                    r.out
+                },
+                Err(e) => Outcome::invalid(e),
+            };
+        }
         let sc: Scenario = match serde_json::from_value(scenario.clone()) {
             Ok(s) => s,
             Err(e) => return Outcome::invalid(format!("bad scenario: {e}")),
@@ -260,6 +313,9 @@ impl Check for C18 {
         out
     }
     fn shrink(&self, sc: &Value) -> Vec<Value> {
+        if let Some(c) = sc.get("cluster") {
+            return crate::e2::c01::shrink_cluster(c).into_iter().map(|v| serde_json::json!({ "cluster": v })).collect();
+        }
         let mut c = generic_shrink(sc);
         if sc["jitter_ms"].as_array().map(|a| !a.is_empty()).unwrap_or(false) {
             let mut v = sc.clone();
